@@ -52,7 +52,7 @@ pub fn build_grid(law: &Law, n: usize) -> Option<Grid> {
             };
             let qlo = f(1e-13);
             let qhi = f(1.0 - 1e-13);
-            if qhi - qlo <= 6000.0 {
+            if qhi - qlo <= 6000.0 && qhi < 4e15 {
                 let mut cps = vec![];
                 let mut k = (qlo - 1.0).max(*lo - 1.0);
                 while k <= qhi {
@@ -138,7 +138,10 @@ pub fn check_case(case: &Case, macros: &Mutex<MacroAlphabets>, tier: Tier) -> Op
         r.vlevels
     };
     let mut cfg = TreeCfg::default();
-    let sz = sizes_for(vlevels, tier);
+    let mut sz = sizes_for(vlevels, tier);
+    if let Ok(v) = std::env::var("VERIF_SIZES") {
+        sz = v.split(',').filter_map(|x| x.parse().ok()).collect();
+    }
     cfg.lattice = sz.clone();
     cfg.macro_cells = sz;
     cfg.tail_points = if tier == Tier::Quick { 2 } else { 4 };
@@ -161,9 +164,18 @@ pub fn check_case(case: &Case, macros: &Mutex<MacroAlphabets>, tier: Tier) -> Op
         // stated plainly: the law of this case is not decided (Knuth product method etc.)
         out.judged = false;
     }
+    let total_leaves: u64 = ex.leaf_bins.iter().map(|&x| x as u64).sum();
+    let mut cum_leaves = 0u64;
     for i in 0..k {
+        cum_leaves += ex.leaf_bins[i] as u64;
         let t = grid.cps[i];
         let f = cdf(t);
+        // tails produced jointly by two or more value-producing draws are judged only where the explorer actually
+        // resolved them (at least 32 leaf executions on each side of the checkpoint)
+        if vlevels >= 2 && ((f > 0.0 && f < 1e-3) || (f < 1.0 && f > 1.0 - 1e-3)) && (cum_leaves < 32 || total_leaves - cum_leaves < 32) {
+            out.unresolved += 1;
+            continue;
+        }
         let dev = (l[i] - f).abs();
         let e = res.err.get(i).cloned().unwrap_or(0.0).min(res.err_hi.get(i).cloned().unwrap_or(0.0));
         let gran = if disc { 0.0 } else {
